@@ -63,11 +63,47 @@ const MAX_VEC_LEN: usize = 1 << 26;
 // values
 // ------------------------------------------------------------------------------------------
 
-struct StrObj(Box<str>);
+thread_local! {
+  /// approximate number of bytes held by live interpreter objects of the current run
+  static LIVE: std::cell::Cell<usize> = const { std::cell::Cell::new(0) };
+}
+/// more live data than this ends the run with `StepLimit` (resource guard)
+const MAX_LIVE_BYTES: usize = 1 << 30;
+
+fn live_add(n: usize) {
+  LIVE.with(|c| c.set(c.get().saturating_add(n)));
+}
+fn live_sub(n: usize) {
+  LIVE.with(|c| c.set(c.get().saturating_sub(n)));
+}
+fn live_exceeded() -> bool {
+  LIVE.with(|c| c.get() > MAX_LIVE_BYTES)
+}
+
+/// (text, counted in LIVE) - the global strings of a `Program` outlive a run and are not counted
+struct StrObj(Box<str>, bool);
+
+impl Drop for StrObj {
+  fn drop(&mut self) {
+    if self.1 {
+      live_sub(self.0.len() + 32);
+    }
+  }
+}
 
 struct StructObj {
   ty: TypeNameId,
   fields: Vec<Value>,
+  /// bytes accounted in LIVE
+  acct: usize,
+}
+
+impl StructObj {
+  fn new(ty: TypeNameId, fields: Vec<Value>) -> StructObj {
+    let acct = 40 + 16 * fields.len();
+    live_add(acct);
+    StructObj { ty, fields, acct }
+  }
 }
 
 struct ClosureObj {
@@ -78,6 +114,8 @@ struct ClosureObj {
 
 struct VecInner {
   data: Vec<Value>,
+  /// number of elements accounted in LIVE (16 bytes each)
+  acct: usize,
   /// capacity as the wasm runtime would report it (length of the backing array)
   cap: i32,
 }
@@ -142,6 +180,7 @@ fn release(stack: &mut Vec<Value>) {
 
 impl Drop for StructObj {
   fn drop(&mut self) {
+    live_sub(self.acct);
     if self.fields.iter().any(Value::is_container) {
       let mut st = std::mem::take(&mut self.fields);
       release(&mut st);
@@ -161,6 +200,7 @@ impl Drop for ClosureObj {
 impl Drop for VecObj {
   fn drop(&mut self) {
     let inner = self.inner.get_mut();
+    live_sub(16 * inner.acct);
     if inner.data.iter().any(Value::is_container) {
       let mut st = std::mem::take(&mut inner.data);
       release(&mut st);
@@ -472,7 +512,8 @@ impl<'c, 'a> FnCompiler<'c, 'a> {
   fn opnd(&mut self, e: &Expression) -> Opnd {
     match e {
       Expression::Int32Literal(i) => Opnd::Int(*i),
-      Expression::Int31Literal(i) => Opnd::I31(*i),
+      // (ref.i31 v) keeps the low 31 bits, i31.get_s sign-extends them
+      Expression::Int31Literal(i) => Opnd::I31((*i << 1) >> 1),
       Expression::StringName(n) => match self.str_index.get(n) {
         Some(i) => Opnd::Str(*i),
         None => {
@@ -791,7 +832,7 @@ impl<'a> Program<'a> {
     for g in &sources.global_variables {
       let s = g.0;
       str_index.entry(s).or_insert_with(|| {
-        strings.push(Rc::new(StrObj(s.as_str(heap).into())));
+        strings.push(Rc::new(StrObj(s.as_str(heap).into(), false)));
         (strings.len() - 1) as u32
       });
     }
@@ -912,7 +953,9 @@ impl<'a> Program<'a> {
       ub: UbFlags::default(),
       stats: MirStats::default(),
       scratch: Vec::new(),
+      extra_steps: 0,
     };
+    LIVE.with(|c| c.set(0));
     let (ending, result) = m.run(function_index as u32, int_args);
     let result = match result {
       Some(Value::Int(i)) | Some(Value::I31(i)) => Some(i),
@@ -948,6 +991,8 @@ struct Machine<'p, 'a> {
   ub: UbFlags,
   stats: MirStats,
   scratch: Vec<Value>,
+  /// steps charged by builtins for work proportional to data size
+  extra_steps: u64,
 }
 
 fn fault(kind: impl Into<String>) -> Ending {
@@ -1000,6 +1045,18 @@ impl<'p, 'a> Machine<'p, 'a> {
       },
       Opnd::I31(_) => Err(fault(format!("{what}: expected i32, found i31"))),
       Opnd::Str(_) => Err(fault(format!("{what}: expected i32, found string"))),
+    }
+  }
+
+  #[inline]
+  fn try_int(&self, base: usize, o: Opnd) -> Option<i32> {
+    match o {
+      Opnd::Int(i) => Some(i),
+      Opnd::Slot(s) => match &self.stack[base + s as usize] {
+        Value::Int(i) => Some(*i),
+        _ => None,
+      },
+      _ => None,
     }
   }
 
@@ -1082,11 +1139,17 @@ impl<'p, 'a> Machine<'p, 'a> {
     })
   }
 
-  fn new_str(&self, s: String) -> Result<Value, Ending> {
+  fn new_str(&mut self, s: String) -> Result<Value, Ending> {
     if s.len() > MAX_STRING_BYTES {
       return Err(Ending::StepLimit);
     }
-    Ok(Value::Str(Rc::new(StrObj(s.into_boxed_str()))))
+    live_add(s.len() + 32);
+    if live_exceeded() {
+      return Err(Ending::StepLimit);
+    }
+    // copying is charged: 1 step per 16 bytes
+    self.extra_steps += (s.len() / 16) as u64;
+    Ok(Value::Str(Rc::new(StrObj(s.into_boxed_str(), true))))
   }
 
   fn want_str<'v>(v: &'v Value, what: &str) -> Result<&'v str, Ending> {
@@ -1197,7 +1260,7 @@ impl<'p, 'a> Machine<'p, 'a> {
         Ok(Value::Int((a == b) as i32))
       }
       Builtin::VecEmpty => Ok(Value::Vec(Rc::new(VecObj {
-        inner: RefCell::new(VecInner { data: Vec::new(), cap: 0 }),
+        inner: RefCell::new(VecInner { data: Vec::new(), acct: 0, cap: 0 }),
       }))),
       Builtin::VecWithCapacity => {
         let cap = Self::want_int(&args[1], what)?;
@@ -1208,12 +1271,15 @@ impl<'p, 'a> Machine<'p, 'a> {
           return Err(Ending::StepLimit);
         }
         Ok(Value::Vec(Rc::new(VecObj {
-          inner: RefCell::new(VecInner { data: Vec::new(), cap }),
+          inner: RefCell::new(VecInner { data: Vec::new(), acct: 0, cap }),
         })))
       }
       Builtin::VecOf => {
         let v = self.elem_in(std::mem::replace(&mut args[1], Value::Undef));
-        Ok(Value::Vec(Rc::new(VecObj { inner: RefCell::new(VecInner { data: vec![v], cap: 1 }) })))
+        live_add(16);
+        Ok(Value::Vec(Rc::new(VecObj {
+          inner: RefCell::new(VecInner { data: vec![v], acct: 1, cap: 1 }),
+        })))
       }
       Builtin::VecLength => {
         let v = Self::want_vec(&args[0], what)?;
@@ -1245,11 +1311,24 @@ impl<'p, 'a> Machine<'p, 'a> {
         let need = inner.data.len() as i32 + 1;
         Self::vec_reserve(&mut inner, need);
         inner.data.push(e);
+        inner.acct += 1;
+        live_add(16);
+        if live_exceeded() {
+          return Err(Ending::StepLimit);
+        }
         Ok(Value::Int(0))
       }
       Builtin::VecPop => {
         let v = Self::want_vec(&args[0], what)?;
-        let popped = v.inner.borrow_mut().data.pop();
+        let popped = {
+          let mut inner = v.inner.borrow_mut();
+          let p = inner.data.pop();
+          if p.is_some() && inner.acct > 0 {
+            inner.acct -= 1;
+            live_sub(16);
+          }
+          p
+        };
         match popped {
           Some(e) => Ok(e),
           None => Err(Ending::VecBounds),
@@ -1357,8 +1436,8 @@ impl<'p, 'a> Machine<'p, 'a> {
       };
     }
 
+    let mut code: &[Instr] = &prog.funcs[func as usize].code;
     loop {
-      let code = &prog.funcs[func as usize].code;
       let instr = &code[pc];
       pc += 1;
       steps += 1;
@@ -1367,7 +1446,9 @@ impl<'p, 'a> Machine<'p, 'a> {
       }
       match instr {
         Instr::Binary { dst, op, a, b, str_cmp } => {
-          let r = if matches!(op, Op::EQ | Op::NE) {
+          let r = if let (Some(x), Some(y)) = (self.try_int(base, *a), self.try_int(base, *b)) {
+            tri!(self.arith(*op, x, y))
+          } else if matches!(op, Op::EQ | Op::NE) {
             let va = tri!(self.val(func, base, *a));
             let vb = tri!(self.val(func, base, *b));
             let eq = if *str_cmp {
@@ -1452,8 +1533,10 @@ impl<'p, 'a> Machine<'p, 'a> {
           for f in fields.iter() {
             fs.push(tri!(self.val(func, base, *f)));
           }
-          self.stack[base + *dst as usize] =
-            Value::Struct(Rc::new(StructObj { ty: *ty, fields: fs }));
+          self.stack[base + *dst as usize] = Value::Struct(Rc::new(StructObj::new(*ty, fs)));
+          if live_exceeded() {
+            bail!(Ending::StepLimit);
+          }
         }
         Instr::ClosureInit { dst, ty, func: target, ctx } => {
           let ctx = tri!(self.val(func, base, *ctx));
@@ -1475,6 +1558,7 @@ impl<'p, 'a> Machine<'p, 'a> {
             self.scratch.push(v);
           }
           let r = tri!(self.builtin(*b));
+          steps += std::mem::take(&mut self.extra_steps);
           if let Some(d) = dst {
             self.stack[base + *d as usize] = r;
           }
@@ -1507,6 +1591,7 @@ impl<'p, 'a> Machine<'p, 'a> {
             self.stats.max_depth = self.frames.len() + 1;
           }
           func = *target;
+          code = &callee.code;
           pc = 0;
           base = new_base;
         }
@@ -1570,6 +1655,7 @@ impl<'p, 'a> Machine<'p, 'a> {
             self.stats.max_depth = self.frames.len() + 1;
           }
           func = target;
+          code = &cf.code;
           pc = 0;
           base = new_base;
         }
@@ -1604,6 +1690,7 @@ impl<'p, 'a> Machine<'p, 'a> {
             }
             Some(fr) => {
               func = fr.func;
+              code = &prog.funcs[func as usize].code;
               pc = fr.pc as usize;
               base = fr.base;
               if let Some(d) = fr.dst {
